@@ -1,9 +1,11 @@
 """C44 — event values keep their types and contents through the REST API."""
 import json
 import os
+import sys
 
 from checks import codec_common as C
 from vplib import coqtools, harness
+from vplib.common import sh
 
 META = {
     "technique": "Coq proof (structural induction over JSON trees) about an executable model of json_to_runtime_value / value_to_json; "
@@ -15,8 +17,9 @@ META = {
                   "become floats: known finding, every such integer does). Modelled, not proved: the JSON text layer (serde_json parser and "
                   "printer — the driver prints/parses text with its own code and compares trees, floats by bits), serde_json's BTreeMap "
                   "objects (key order and duplicate keys: compared as maps, last duplicate wins), the pipeline between the two conversions "
-                  "(a pass-through .emit). json_from_value (SSE log stream) is textually the same function as websocket::value_to_json but is "
-                  "not exercised by the differential run.",
+                  "(a pass-through .emit). json_from_value (SSE log stream) is not exercised by the differential run: it is tied by the "
+                  "translator translate/api_json_arms.py (its match arms, regenerated from the source on every run, are proved equal to "
+                  "the arms of websocket::value_to_json the model was written from).",
     "design_ref": "DESIGN.md §7 C44",
 }
 
@@ -155,10 +158,14 @@ def check(run):
                     "hand-written model coq/theories/Codec/Model.v (json_to_value, value_to_json, f64_of_Z) tied by differential run through the real routes",
                     "JSON text layer: serde_json parser/printer on the server side, the driver's own parser/printer (checks/codec_common.py) on the other",
                     "the pass-through pipeline `stream Out = A .emit(v: v, w: w)` between the two conversions (engine field access and emit)",
-                    "json_from_value (log stream) not exercised: same text as websocket::value_to_json",
+                    "translator translate/api_json_arms.py (arm extraction and normalisation) for json_from_value, which the differential run does not reach",
                     "Rust harness harness/crates/codec (warp::test), Python driver"]
     run.assumptions += ["payload depth within serde_json's recursion limit", "finite floats representable in binary64 (1e400 is rejected with 400)"]
-    binpath = C.build(run, ["theories/Codec/Props.vo"], "C44.v")
+    # T-tie: regenerate the arm tables of the three conversion functions from the source
+    tr = sh([sys.executable, os.path.join(os.path.dirname(os.path.dirname(os.path.abspath(__file__))), "translate", "api_json_arms.py")], timeout=120)
+    if tr.returncode != 0:
+        run.tie_broken("translator api_json_arms.py (shape of json_to_runtime_value / json_from_value / value_to_json)", (tr.stdout + tr.stderr)[-1500:])
+    binpath = C.build(run, ["theories/Codec/Props.vo", "theories/Codec/PropsArms.vo"], "C44.v")
     if binpath is None:
         return
     cases = []
